@@ -38,7 +38,7 @@ def acceptor_case(own, peer, rng, user_first=False):
     cfg = {'served': [N.AS_UID['S2']], 'supported': [N.TS_UID['T1']]}
     rq = {'called': 'SCP', 'calling': 'SCU', 'appctx': N.APP_CTX, 'ctxs': [{'id': 1, 'as': N.AS_UID['S2'], 'ts': [N.TS_UID['T1']]}]}
     ans, acc, ann, notes = N.run_accept(cfg, rq, own_max=own, peer_max=peer, user_first=user_first, probe=[])
-    acc.dul = D.RecordingDul()
+    acc.dul = D.RecordingDul(own if own else 1 << 20)
     lens, delivered, err = N.send_after_negotiation(acc, sizes_for(effective(own, peer)), rng)
     return ann, lens, delivered, err
 
